@@ -103,6 +103,7 @@ fn main() {
         "C13" => dispatch(checks::c13::C13, tier, seed, replay),
         "C18" => dispatch(checks::c18::C18, tier, seed, replay),
         "C19" => dispatch(checks::c19::C19, tier, seed, replay),
+        "C20" => dispatch(checks::c20::C20, tier, seed, replay),
         _ => {
             eprintln!("unknown property id {id}");
             2
